@@ -47,10 +47,21 @@ PTransExpected(ln) == PartialTranspose(AsDop(ln.x), ln.dims, SetOf(ln.sysa))
 
 \* Tr[embed(A) rho] = Tr[A ptr(rho)], both sides measured on quimb's outputs, and equal to the
 \* reference value
+AdjointRef(ln) == TrProd(EmbedKept(ln.A, ln.dims, SetOf(ln.keep)), AsDop(ln.x))
 AdjointHolds(ln) ==
   /\ ln.exc = ""
   /\ ln.trE = ln.trP
-  /\ ln.trE = TrProd(EmbedKept(ln.A, ln.dims, SetOf(ln.keep)), AsDop(ln.x))
+  /\ ln.trE = AdjointRef(ln)
+\* the same duality with both sides evaluated by quimb's own `expec` (A is generic, non-Hermitian)
+AdjointExpecHolds(ln) ==
+  ln.xdo =>                     \* (not for a 1x1 operator A: quimb types it as a vector)
+  /\ ln.xexc = ""
+  /\ ln.xE = ln.xP
+  /\ ln.xE = AdjointRef(ln)
+
+(* ---- expectation ---- *)
+ExpecReturns(ln) == ln.exc = "" \/ (ln.rej /\ ln.exc # "")
+ExpecValueOK(ln) == ln.exc = "" => ln.got = Expec(ln.a, ln.b)
 
 (* ---- dim_map ---- *)
 DimMapOK(ln) ==
@@ -117,7 +128,8 @@ Clauses(ln) ==
          << <<"PtrReturns", Returns(ln)>>,
             <<"PtrShape", ShapeIs(ln, X)>>,
             <<"PtrCoordinatesValue", ValueIs(ln, X)>> >>
-    [] ln.ev = "adjoint" -> << <<"Adjoint", AdjointHolds(ln)>> >>
+    [] ln.ev = "adjoint" -> << <<"Adjoint", AdjointHolds(ln)>>, <<"AdjointExpec", AdjointExpecHolds(ln)>> >>
+    [] ln.ev = "expec"   -> << <<"ExpecReturns", ExpecReturns(ln)>>, <<"ExpecValue", ExpecValueOK(ln)>> >>
     [] ln.ev = "ptrans" ->
          LET X == PTransExpected(ln) IN
          << <<"PTransposeReturns", Returns(ln)>>,
